@@ -77,6 +77,7 @@ int aes_cbc_padding_decrypt(const AES_KEY *key, const uint8_t iv[16],
 	uint8_t block[16];
 	size_t len = sizeof(block);
 	int padding;
+	size_t i;
 
 	if (inlen == 0) {
 		error_print();
@@ -102,6 +103,12 @@ int aes_cbc_padding_decrypt(const AES_KEY *key, const uint8_t iv[16],
 		return -1;
 	}
 	len -= padding;
+	for (i = len; i < sizeof(block); i++) {
+		if (block[i] != padding) {
+			error_print();
+			return -1;
+		}
+	}
 	memcpy(out + inlen - 16, block, len);
 	*outlen = inlen - padding;
 	return 1;
